@@ -30,8 +30,11 @@ def flipv(bb):
     return out
 
 
-def emissions(f):
-    """[(assign node, creator name, [arg nodes])] for every  *list++ = create_*(...)"""
+def emissions(f, _depth=0):
+    """[(site node in f, creator name, [arg nodes])] for every  *list++ = create_*(...)  of f, including those made by a
+    helper the reference tree did not have (an extracted emitter): its emissions are attributed to the call site and its
+    arguments are rewritten in terms of the caller (parameters replaced by the actual arguments, its single-definition locals
+    by their definitions)"""
     out = []
     for n in f.all_nodes():
         if n['k'] == 'BinaryOperator' and n.get('op') == '=':
@@ -44,7 +47,47 @@ def emissions(f):
                     nm = short(r.get('callee', {}).get('n', ''))
                     if nm.startswith('create_'):
                         out.append((n, nm, kids(r)[1:]))
+    prog_ = f.prog
+    if _depth < 3:
+        for n, cfid, nm in list(f.calls()):
+            h = prog_.funcs.get(cfid)
+            if h is None or h.body is None or not prog_.is_new_function(h) or not h.file.startswith(prog_.root):
+                continue
+            sub = emissions(h, _depth + 1)
+            if not sub:
+                continue
+            actual = kids(n)[1:]
+            if len(actual) != len(h.params):
+                raise AnalysisBroken('C01: call of emitting helper %s not understood' % h.name)
+            pmap = {q['id']: a for q, a in zip(h.params, actual)}
+            for em_h, creator, args_h in sub:
+                if guard_facts(h, em_h):
+                    raise AnalysisBroken('C01: helper %s emits moves conditionally; not understood' % h.name)
+                out.append((n, creator, [_transplant(h, a, pmap) for a in args_h]))
     return out
+
+
+_SYN = [0]
+
+
+def _transplant(h, node, pmap, depth=0):
+    """copy of an expression of helper h rewritten for the caller"""
+    if node is None:
+        return None
+    r = node.get('ref')
+    if r and r['k'] == 'Parm' and r.get('id') in pmap:
+        return pmap[r['id']]
+    if r and r['k'] == 'Local' and depth < 6:
+        d = single_def(h, r['id'])
+        if d is None:
+            raise AnalysisBroken('C01: helper %s uses a local with several definitions in an emitted move' % h.name)
+        return _transplant(h, d, pmap, depth + 1)
+    _SYN[0] -= 1
+    c = dict(node)
+    c['i'] = _SYN[0]
+    if node.get('ch'):
+        c['ch'] = [_transplant(h, x, pmap, depth) if x else x for x in node['ch']]
+    return c
 
 
 def loop_source(f, em):
@@ -345,29 +388,29 @@ def check(ctx):
     ctx.ob('C01.M3.queen-block', 'QUEEN_CASTLING_BLOCK', qb == [bb('B1'), bb('B8')], 'long castling also needs b1/b8 empty', site='engine/move_bitboards.cpp')
     for col, rights in (('WHITE', ('W_OO', 'W_OOO')), ('BLACK', ('B_OO', 'B_OOO'))):
         gl = gens[('generate_legal_moves', col)]
-        cems = [(em, args) for em, creator, args in emissions(gl) if creator == 'create_castling' and gl.cfg.is_reachable(em)]
+        from rules.norm import Norm
+        cidx = 0 if col == 'WHITE' else 1
         found = {}
-        for em, args in cems:
-            wing = const_of(strip_casts(args[0]))
-            gf = [(canon(gl, c, inline=False).replace(' ', ''), t) for c, t in guard_facts(gl, em)]
-            d = dict(gf)
-            right = None
-            for k_, t in gf:
-                m = re.match(r'^\(pos\.castling_rights\(\)&(\w+)\)$', k_)
-                if m and t:
-                    right = m.group(1)
-            path_ok = right is not None and d.get('(taken_for_castling&CASTLING_PATHS[%s])' % right) is False
-            unchecked = d.get('checkers_bb') is False
-            blk = d.get('(QUEEN_CASTLING_BLOCK[%s]&pos.pieces())' % col)
-            found[right] = (wing, path_ok, unchecked, blk)
-        want = {rights[0]: (cas['KING_CASTLING'], True, True, None), rights[1]: (cas['QUEEN_CASTLING'], True, True, False)}
+        for em, creator, args in emissions(gl):
+            if creator != 'create_castling' or not gl.cfg.is_reachable(em):
+                continue
+            nm_ = Norm(gl)
+            g = nm_.facts(guard_facts(gl, em))
+            if g is None:
+                continue          # arm of the other colour: constantly false in this instantiation
+            wing = nm_.cval(args[0])
+            found[wing] = found.get(wing, set()) | {g}
+        want = {}
+        for r, wing, long_ in ((rights[0], 'KING_CASTLING', False), (rights[1], 'QUEEN_CASTLING', True)):
+            R = cas[r]
+            atoms = {('truthy', '((forbidden_squares(pos)|pos.pieces())&CASTLING_PATHS[%d])' % R, False),
+                     ('truthy', '(%d&pos.castling_rights())' % R, True), ('truthy', 'checkers(pos)', False)}
+            if long_:
+                atoms.add(('truthy', '(QUEEN_CASTLING_BLOCK[%d]&pos.pieces())' % cidx, False))
+            want[cas[wing]] = {frozenset(atoms)}
         ctx.ob('C01.M3.preconditions', 'generate_legal_moves<%s>' % col, found == want,
                'castling is emitted only when not in check, with the right of that colour and wing, the king\'s path neither attacked nor '
-               'occupied, and (long) the b-file square empty (%s)' % found, site=gl.loc())
-        tk = [n for n in gl.all_nodes() if n['k'] == 'VarDecl' and n.get('name') == 'taken_for_castling']
-        ctx.ob('C01.M3.taken', 'generate_legal_moves<%s>' % col, len(tk) == 1 and
-               canon(gl, kids(tk[0])[0], inline=False).replace(' ', '') == '(attacked|pos.pieces())',
-               'the path test uses attacked squares united with all pieces', site=gl.loc())
+               'occupied, and (long) the b-file square empty (%s)' % {k: [sorted(map(str, x)) for x in v] for k, v in found.items()}, site=gl.loc())
 
     # ---- M4 colour genericity ------------------------------------------------------------------------------------------------
     n_pairs = 0
@@ -396,6 +439,16 @@ def check(ctx):
             elif 'Rank' in t:
                 ok = va + vb == 7
                 why = 'relative ranks mirror'
+            elif 'Castling' in t:
+                wb = {cas['W_OO']: cas['B_OO'], cas['W_OOO']: cas['B_OOO'], cas['W_CASTLING']: cas['B_CASTLING']}
+                ok = wb.get(va) == vb or wb.get(vb) == va
+                why = 'the same castling right(s) of the other colour'
+            elif 'Square' in t:
+                ok = (va ^ 56) == vb
+                why = 'the same square seen from the other side'
+            elif 'Color' in t:
+                ok = va + vb == 1
+                why = 'the opposite colour'
             else:
                 ok = va == -vb
                 why = 'directions/offsets are negatives of each other'
